@@ -8,7 +8,7 @@ Extraction Blacklist List String Int.
 Cd "extract".
 Extraction "nopmodel.ml"
   dec enc serialize tsize tprefix tmatch has_type val_eqb spec_enc wf no_handles fungible run_rcall run_wcall nop_siphash siphash_spec table_hash interface_hash method_selector host_from_little host_from_big host_to_little host_to_big
-  o_step o_pre o_init r_step r_pre r_init v_step v_pre v_init h_step h_pre h_init
+  o_step o_pre o_init r_step r_pre r_init v_step v_pre v_init vc_to_vop harness_ctor_target harness_assign_target h_step h_pre h_init
   oo_eq oo_ne oo_lt oo_gt oo_le oo_ge ov_eq ov_ne ov_lt ov_gt ov_le ov_ge vo_eq vo_ne vo_lt vo_gt vo_le vo_ge
   lr_ops lw_ops tlr_ops tlw_ops bufr_ops bufw_ops bounded_rops bounded_wops
   bounded_read_padding bounded_write_padding b_make b_inner b_index b_size
